@@ -208,7 +208,27 @@ def build_lib(variant):
     return lib
 
 
-def build_harness(variant, name, sources, extra_flags=(), gen_sources=()):
+def _build_pch(variant, d, cmd, text):
+    """precompiled header for the generated TUs (gcc only); returns extra compile flags"""
+    if VARIANTS[variant][0] != "g++":
+        return []
+    key = hashlib.sha1((text + " ".join(cmd) + toolkit_hash()).encode()).hexdigest()[:16]
+    hdr = os.path.join(d, "pch-%s.hpp" % key)
+    gch = hdr + ".gch"
+    if not os.path.exists(gch):
+        with _Lock(os.path.join(BUILD, "lock-pch-%s" % key)):
+            if not os.path.exists(gch):
+                with open(hdr, "w") as f:
+                    f.write(text)
+                r = subprocess.run(cmd + ["-x", "c++-header", hdr, "-o", gch + ".tmp"], capture_output=True, text=True)
+                if r.returncode != 0:
+                    log("pch build failed (ignored): %s" % r.stderr[-500:])
+                    return []
+                os.replace(gch + ".tmp", gch)
+    return ["-include", hdr]
+
+
+def build_harness(variant, name, sources, extra_flags=(), gen_sources=(), pch_text=None):
     """Compile harness TUs (cached by content) and link with the library.
 
     sources: paths (absolute or relative to harness/src).
@@ -238,6 +258,8 @@ def build_harness(variant, name, sources, extra_flags=(), gen_sources=()):
     exe = os.path.join(d, "%s-%s.exe" % (name, exekey))
     if os.path.exists(exe):
         return exe
+    if pch_text and any(not os.path.exists(o) for _, o in work):
+        cmd = cmd + _build_pch(variant, tree_dir(), cmd, pch_text)
     with _Lock(os.path.join(BUILD, "lock-h-%s-%s-%s" % (variant, name, tree_hash()))):
         if os.path.exists(exe):
             return exe
